@@ -34,6 +34,7 @@ import (
 	"github.com/semihalev/sdns/internal/verifshim/vkit"
 	"github.com/semihalev/sdns/internal/verifshim/vos"
 	"github.com/semihalev/sdns/internal/verifshim/vtime"
+	"github.com/semihalev/sdns/middleware/resolver/dnssec"
 )
 
 const vkDay = 24 * time.Hour
@@ -868,6 +869,9 @@ func (w *vkC09World) judge(ev vkC09Ev, pub *vkC09Pub, pre, post vkC09Obs, asked,
 				}
 			} else if k.St == vkAddPend {
 				key = "c-key-trusted-before-holddown" + who
+			} else if pb := w.lastRefB.K[b]; pb.St == vkAddPend && st.Auth == "full" && !st.Present[b] && vkC09TagCollides(pub, b) {
+				// pending key absent from this accepted set, but another published key has its key tag
+				key = "c-absent-pending-key-promoted-by-colliding-tag|" + b
 			}
 			// every divergence that follows a revocation no record could hold has that one root cause
 			for _, vb := range vkC09Bases {
@@ -889,10 +893,14 @@ func (w *vkC09World) judge(ev vkC09Ev, pub *vkC09Pub, pre, post vkC09Obs, asked,
 					label += "+promoted"
 				}
 			case vkMissing:
-				if !in && !w.ref.Configured[b] {
+				// removal happens only in a fully authenticated refresh that lacks the key, and shows
+				// in the state file (an empty trust set alone may just be a fail-closed clear)
+				_, listed := post.State[b]
+				gone := st.Auth == "full" && !st.Present[b] && !in && post.StateErr == "" && !listed
+				if gone && !w.ref.Configured[b] {
 					k.St = vkStart
 					label += "+removed-after-90d"
-				} else if !in {
+				} else if gone {
 					label += "+configured-key-removed-after-90d"
 				}
 			}
@@ -939,7 +947,14 @@ func (w *vkC09World) judge(ev vkC09Ev, pub *vkC09Pub, pre, post vkC09Obs, asked,
 	// (b) a response no trusted key authenticates changes nothing
 	if st.Auth == "none" {
 		if !vkC09SameFiles(pre.Files, post.Files) && ev.Fault != "tombloop" {
-			return &vkC09Viol{Key: "b-unauthenticated-changed-files|" + pub.Name + "|" + ft,
+			bkey := "b-unauthenticated-changed-files|" + pub.Name + "|" + ft
+			for _, vb := range vkC09Bases {
+				// the set was authenticated by a key whose accepted revocation no record could hold
+				if vk := w.ref.K[vb]; vk.St == vkRevoked && vk.Vol && pub.signedBy(vb) {
+					bkey = "a-unpersisted-revocation-forgotten-in-process"
+				}
+			}
+			return &vkC09Viol{Key: bkey,
 				Msg: fmt.Sprintf("publication %s is authenticated by no currently trusted key (reference trusts %s) but the state files changed: before {%s} after {%s}",
 					pub.Name, w.refTrusted(), vkC09ObsStr(pre), vkC09ObsStr(post))}, ""
 		}
@@ -986,6 +1001,18 @@ func vkC09FaultClass(ev vkC09Ev, fired bool, w *vkC09World) string {
 		return "|fault=state-write-failed"
 	}
 	return "|fault=" + w.faultKind
+}
+
+// vkC09TagCollides reports whether the publication holds a key (any form) with the key tag of b's plain form.
+func vkC09TagCollides(pub *vkC09Pub, b string) bool {
+	u := vkC09Universe()
+	t := dnssec.KeyTag(u.form(b))
+	for _, f := range pub.Keys {
+		if vkC09Base(f) != b && dnssec.KeyTag(u.form(f)) == t {
+			return true
+		}
+	}
+	return false
 }
 
 func (w *vkC09World) refTrusted() string {
